@@ -10,32 +10,22 @@ import Ypv.Model.Render
 namespace Ypv.C08
 open Ypv
 
-/-- stage 1: KEY, INDEX, slice, ANCHOR, MATCH_ALL, TRAVERSE -/
-def isBasic : Seg → Bool
-  | (.key, .str _) | (.matchAll, .none) | (.traverse, .none) | (.index, .int _)
-  | (.index, .str _) | (.anchor, .str _) => true
-  | _ => false
-
-theorem markFrom_basic : ∀ (segs : List Seg) (mm : Bool), (∀ s ∈ segs, isBasic s = true) →
-    markFrom mm segs = true := by
-  intro segs
-  induction segs with
-  | nil => intro _ _; rfl
-  | cons s r ih =>
-    intro mm h
-    have hs := h s (by simp)
-    have h1 : isInterColl s = false ∧ isEmptyColl s = false := by
-      obtain ⟨t, a⟩ := s
-      cases t <;> cases a <;> simp_all [isBasic, isInterColl, isEmptyColl]
-    simp [markFrom, h1.1, h1.2, ih false (fun x hx => h x (by simp [hx]))]
-
-/-- **parse_write, stage 1.**  Every well-formed list of KEY / INDEX / slice / ANCHOR / MATCH_ALL /
-TRAVERSE segments, of any length, written in dot (`fslash = false`) or forward-slash notation,
-parses back to exactly that list — no restriction at all (finding C08-6 needs collectors). -/
-theorem parse_write_basic (fslash : Bool) (segs : List Seg)
-    (hk : ∀ s ∈ segs, isBasic s = true) (hwf : wfSegs segs = true) :
+/-- **parse_write.**  Every well-formed list of segments of ALL kinds — KEY, INDEX, slice, ANCHOR,
+MATCH_ALL, TRAVERSE, SEARCH (nine operators, inversion, attribute and term text, the
+regular-expression delimiter chosen by the writer), KEYWORD_SEARCH, COLLECTOR (all operators, any
+expression, empty and `&…` included) — of any length, written in dot (`fslash = false`) or forward-slash
+notation, parses back to exactly that list.  (Unconditional since /repo 5554362, the repair of
+finding C08-6; before it `/()&(b)` lost the `&`.) -/
+theorem parse_write (fslash : Bool) (segs : List Seg) (hwf : wfSegs segs = true) :
     parseWith fslash true (write fslash segs) = .ok segs := by
-  simpa using Sim.parseWith_write fslash true segs hwf (fun _ => markFrom_basic segs true hk)
+  simpa using Sim.parseWith_write fslash true segs hwf
+
+/-- **The `strip = false` twin (`YAMLPath.unescaped`).**  The unescaped segments of a written
+well-formed list are the same segments with their texts as written (`keepEsc`: escapes kept). -/
+theorem parse_write_unescaped (fslash : Bool) (segs : List Seg) (hwf : wfSegs segs = true) :
+    parseWith fslash false (write fslash segs) =
+      .ok (segs.map (keepEsc (if fslash then '/' else '.'))) := by
+  simpa using Sim.parseWith_write fslash false segs hwf
 
 theorem normOriginal_idem (t : Str) : normOriginal (normOriginal t) = normOriginal t := by
   unfold normOriginal
@@ -63,57 +53,29 @@ theorem parse_inferred (fslash : Bool) (segs : List Seg) (out : Except PErr (Lis
         · simpa using hx
   rw [this]; exact h
 
-theorem parse_write_basic_inferred (fslash : Bool) (segs : List Seg)
-    (hk : ∀ s ∈ segs, isBasic s = true) (hwf : wfSegs segs = true)
+/-- **parse_write with the separator inferred from the text** (`YAMLPath(text).escaped`): the same,
+except for dot-notation texts that start with `/` — forward-slash paths by the notation's own
+definition (`dotExpressible`). -/
+theorem parse_write_inferred (fslash : Bool) (segs : List Seg) (hwf : wfSegs segs = true)
     (hx : fslash = true ∨ dotExpressible segs = true) :
     parse true (write fslash segs) = .ok segs :=
-  parse_inferred fslash segs _ hx (parse_write_basic fslash segs hk hwf)
+  parse_inferred fslash segs _ hx (parse_write fslash segs hwf)
 
-/-- **parse_write, dot notation (full).**  Every well-formed list of segments of ALL kinds — KEY,
-INDEX, slice, ANCHOR, MATCH_ALL, TRAVERSE, SEARCH (nine operators, inversion, the regular-expression
-delimiter chosen by the writer), KEYWORD_SEARCH, COLLECTOR (all operators) — of any length, written in
-dot notation, parses back to exactly that list. -/
-theorem parse_write_dot (segs : List Seg) (hwf : wfSegs segs = true) :
-    parseWith false true (write false segs) = .ok segs := by
-  simpa using Sim.parseWith_write false true segs hwf (by simp)
+/-- stage 1: KEY, INDEX, slice, ANCHOR, MATCH_ALL, TRAVERSE -/
+def isBasic : Seg → Bool
+  | (.key, .str _) | (.matchAll, .none) | (.traverse, .none) | (.index, .int _)
+  | (.index, .str _) | (.anchor, .str _) => true
+  | _ => false
 
-/-- **parse_write, both notations (partial only by finding C08-6).**  FULL STATEMENT:
-`wfSegs segs → parseWith fslash true (write fslash segs) = .ok segs`.  It FAILS on the pinned code
-for forward-slash texts that start with one or more empty collectors `()` directly followed by an
-intersection collector `&(…)` (`/()&(b)`: the `&` is taken for an anchor mark because
-`seeking_anchor_mark`, set by the leading `/`, is only cleared by the next character that joins a
-segment text; witness `finding6` below, reproduced on /repo).  Proved for every other well-formed
-list: `fslashExpressible` is exactly the complement of that class; for dot notation there is no
-restriction (`parse_write_dot`). -/
-theorem parse_write_partial (fslash : Bool) (segs : List Seg) (hwf : wfSegs segs = true)
-    (hx : fslash = true → fslashExpressible segs = true) :
-    parseWith fslash true (write fslash segs) = .ok segs := by
-  simpa using Sim.parseWith_write fslash true segs hwf hx
+/-- the stage-1 instances (kept for the record; corollaries of `parse_write`) -/
+theorem parse_write_basic (fslash : Bool) (segs : List Seg)
+    (_hk : ∀ s ∈ segs, isBasic s = true) (hwf : wfSegs segs = true) :
+    parseWith fslash true (write fslash segs) = .ok segs := parse_write fslash segs hwf
 
-/-- the witness of finding C08-6: a well-formed list whose forward-slash text loses the `&` -/
-def finding6 : List Seg :=
-  [(.collector, .collector [] .none), (.collector, .collector "b".toList .inter)]
-example : wfSegs finding6 = true ∧ fslashExpressible finding6 = false ∧
-    write true finding6 = "/()&(b)".toList ∧
-    parseWith true true (write true finding6) =
-      .ok [(.collector, .collector [] .none), (.collector, .collector "b".toList .none)] ∧
-    parseWith false true (write false finding6) = .ok finding6 := by decide +kernel
-
-/-- **The `strip = false` twin (`YAMLPath.unescaped`).**  The unescaped segments of a written
-well-formed list are the same segments with their texts as written (`keepEsc`: escapes kept). -/
-theorem parse_write_unescaped_partial (fslash : Bool) (segs : List Seg) (hwf : wfSegs segs = true)
-    (hx : fslash = true → fslashExpressible segs = true) :
-    parseWith fslash false (write fslash segs) =
-      .ok (segs.map (keepEsc (if fslash then '/' else '.'))) := by
-  simpa using Sim.parseWith_write fslash false segs hwf hx
-
-/-- with the separator inferred from the text -/
-theorem parse_write_inferred_partial (fslash : Bool) (segs : List Seg) (hwf : wfSegs segs = true)
-    (hx : if fslash then fslashExpressible segs = true else dotExpressible segs = true) :
-    parse true (write fslash segs) = .ok segs := by
-  cases fslash with
-  | true => exact parse_inferred true segs _ (Or.inl rfl) (parse_write_partial true segs hwf (fun _ => hx))
-  | false => exact parse_inferred false segs _ (Or.inr hx) (parse_write_dot segs hwf)
+theorem parse_write_basic_inferred (fslash : Bool) (segs : List Seg)
+    (_hk : ∀ s ∈ segs, isBasic s = true) (hwf : wfSegs segs = true)
+    (hx : fslash = true ∨ dotExpressible segs = true) :
+    parse true (write fslash segs) = .ok segs := parse_write_inferred fslash segs hwf hx
 
 /-- **eq_iff_segments.**  The model of `YAMLPath.__eq__` (after `fixes/C08-3.patch`) answers
 `true` exactly when both texts parse and their segment lists are the same. -/
@@ -132,32 +94,26 @@ theorem eq_iff_segments (a b : Str) :
 compare equal iff they are the same list. -/
 theorem eq_written (f1 f2 : Bool) (s1 s2 : List Seg)
     (w1 : wfSegs s1 = true) (w2 : wfSegs s2 = true)
-    (x1 : if f1 then fslashExpressible s1 = true else dotExpressible s1 = true)
-    (x2 : if f2 then fslashExpressible s2 = true else dotExpressible s2 = true) :
+    (x1 : f1 = true ∨ dotExpressible s1 = true) (x2 : f2 = true ∨ dotExpressible s2 = true) :
     eqModel (write f1 s1) (write f2 s2) = .ok true ↔ s1 = s2 := by
-  rw [eq_iff_segments, parse_write_inferred_partial f1 s1 w1 x1,
-    parse_write_inferred_partial f2 s2 w2 x2]
+  rw [eq_iff_segments, parse_write_inferred f1 s1 w1 x1, parse_write_inferred f2 s2 w2 x2]
   constructor
   · rintro ⟨s, ha, hb⟩
     cases ha; cases hb; rfl
   · rintro rfl; exact ⟨s1, rfl, rfl⟩
 
-/-- **render_fixed_point (partial only by finding C08-6).**  Take a well-formed list `segs` (all
-kinds), write it in notation `f`, let `u` be what `YAMLPath(text).unescaped` holds
-(`parse_write_unescaped_partial`), and let `S = render f' u` be the library's canonical string in
-notation `f'` (`__str__`, or the string after `separator = …`).  Then
+/-- **render_fixed_point.**  Take a well-formed list `segs` (all kinds), write it in notation `f`,
+let `u` be what `YAMLPath(text).unescaped` holds (`parse_write_unescaped`), and let `S = render f' u`
+be the library's canonical string in notation `f'` (`__str__`, or the string after
+`separator = …`).  Then
 * `S` re-parses (`escaped`) to exactly `segs`, in either notation `f'`;
-* `S` is a fixed point: rendering the unescaped segments of `S` in the same notation gives `S` again.
-The only restriction is the one of `parse_write_partial`: a forward-slash *text* (the written one or the
-rendered one) must not be in the class of finding C08-6. -/
-theorem render_fixed_point_partial (f f' : Bool) (segs : List Seg) (hwf : wfSegs segs = true)
-    (hx : (f = true ∨ f' = true) → fslashExpressible segs = true) :
+* `S` is a fixed point: rendering the unescaped segments of `S` in the same notation gives `S` again. -/
+theorem render_fixed_point (f f' : Bool) (segs : List Seg) (hwf : wfSegs segs = true) :
     ∃ u, parseWith f false (write f segs) = .ok u ∧
       parseWith f' true (render f' u) = .ok segs ∧
       ∃ u', parseWith f' false (render f' u) = .ok u' ∧ render f' u' = render f' u := by
-  refine ⟨segs.map (keepEsc (Sim.sepOf f)),
-    parse_write_unescaped_partial f segs hwf (fun h => hx (Or.inl h)), ?_⟩
-  obtain ⟨h1, _, u', h2, h3, _⟩ := Sim.render_roundtrip f f' segs hwf (fun h => hx (Or.inr h))
+  refine ⟨segs.map (keepEsc (Sim.sepOf f)), parse_write_unescaped f segs hwf, ?_⟩
+  obtain ⟨h1, _, u', h2, h3, _⟩ := Sim.render_roundtrip f f' segs hwf
   exact ⟨h1, u', h2, h3⟩
 
 theorem inferSep_of_head {t : Str} (f : Bool) (hne : t ≠ [])
@@ -189,18 +145,15 @@ theorem str_new (f : Bool) (t : Str) (u : List Seg) (hn : normOriginal t = t)
 text re-parses (separator inferred again) to the written segments and is a fixed point of
 `str ∘ YAMLPath`.  In dot notation neither the text nor its rendering may start with `/` (such texts
 are forward-slash paths by the notation's own definition). -/
-theorem str_fixed_point_partial (f : Bool) (segs : List Seg) (hwf : wfSegs segs = true)
+theorem str_fixed_point (f : Bool) (segs : List Seg) (hwf : wfSegs segs = true)
     (hne : segs ≠ [])
-    (hx : if f then fslashExpressible segs = true else
-      dotExpressible segs = true ∧
+    (hx : f = false → dotExpressible segs = true ∧
         (render false (segs.map (keepEsc '.'))).head? ≠ some '/') :
     ∃ S p, (PathObj.new (write f segs)).str = .ok (S, p) ∧ parse true S = .ok segs ∧
       ∃ p', (PathObj.new S).str = .ok (S, p') := by
-  have hxf : f = true → fslashExpressible segs = true := by
-    intro h; subst h; exact hx
   have hu : parseWith f false (write f segs) = .ok (segs.map (keepEsc (Sim.sepOf f))) :=
-    parse_write_unescaped_partial f segs hwf hxf
-  obtain ⟨hp, hSn, u', hu', hfix, hlen⟩ := Sim.render_roundtrip f f segs hwf hxf
+    parse_write_unescaped f segs hwf
+  obtain ⟨hp, hSn, u', hu', hfix, hlen⟩ := Sim.render_roundtrip f f segs hwf
   have hune : segs.map (keepEsc (Sim.sepOf f)) ≠ [] := by simpa using hne
   have hu'ne : u' ≠ [] := by
     intro h0; rw [h0] at hlen
@@ -208,7 +161,7 @@ theorem str_fixed_point_partial (f : Bool) (segs : List Seg) (hwf : wfSegs segs 
   -- neither text is empty
   have hwne : write f segs ≠ [] := by
     intro h0
-    have := parse_write_partial f segs hwf hxf
+    have := parse_write f segs hwf
     rw [h0, Sim.parseWith_nil] at this
     exact hne (Except.ok.inj this).symm
   have hSne : render f (segs.map (keepEsc (Sim.sepOf f))) ≠ [] := by
@@ -218,12 +171,12 @@ theorem str_fixed_point_partial (f : Bool) (segs : List Seg) (hwf : wfSegs segs 
   -- the separators inferred from the written and from the rendered text
   have hhead1 : if f then (write f segs).head? = some '/' else (write f segs).head? ≠ some '/' := by
     cases f
-    · simpa [dotExpressible] using hx.1
+    · simpa [dotExpressible] using (hx rfl).1
     · simp [write]
   have hhead2 : if f then (render f (segs.map (keepEsc (Sim.sepOf f)))).head? = some '/'
       else (render f (segs.map (keepEsc (Sim.sepOf f)))).head? ≠ some '/' := by
     cases f
-    · simpa [Sim.sepOf] using hx.2
+    · simpa [Sim.sepOf] using (hx rfl).2
     · simp [render]
   obtain ⟨hs1, _⟩ := inferSep_of_head f hwne hhead1
   obtain ⟨hs2, hi2⟩ := inferSep_of_head f hSne hhead2
@@ -242,7 +195,7 @@ def popView (p : PathObj) : Except PErr (Seg × Str) := (p.pop).map (fun x => (x
 
 /-- `pop()` on a lengthened text `o1 = t ++ sep :: seg` returns the last (unescaped) segment `last`
 and restores exactly `t` whenever `seg` is the library's own rendering of `last` (`hr`) and `o1` has
-the unescaped segments `u` ending in `last`.  (`append_pop_partial` below discharges the hypotheses
+the unescaped segments `u` ending in `last`.  (`append_pop` below discharges the hypotheses
 for written paths; `append_text` says what `append` does to the text.) -/
 theorem pop_of_rendered (t seg : Str) (o1 : Str) (hn : normOriginal o1 = o1) (hnt : normOriginal t = t)
     (ho : o1 = t ++ (inferSep o1).char :: seg)
@@ -294,35 +247,34 @@ theorem append_text (t seg : Str) (hnt : normOriginal t = t) (ht : t ≠ []) :
     | cons c r => simp
   simp [PathObj.append, PathObj.new, PathObj.setOriginal, PathObj.getSep, hnt, hl]
 
-/-- **append_pop (partial only by finding C08-6).**  FULL STATEMENT: for every well-formed list
-`segs ≠ []` written in either notation and every further segment `sg` such that `segs ++ [sg]` is
-well-formed, `YAMLPath(text).append(canonical text of sg)` followed by `pop()` returns that segment
-(in its unescaped form) and leaves exactly the original text.  Proved for all of them except the
-inputs on which the pinned code fails (reproduced on /repo): `appendable` excludes an `&(…)`
-collector — `YAMLPath("(a)").append("&(b)")` is read as `(a)(b)` and `pop()` leaves `(a).&` — and an
-anchor whose name starts with `+ - &` directly behind a collector; `fslashExpressible` /
-`dotExpressible` are the restrictions of `parse_write_inferred_partial` on the text one starts from.
-`segText f sg` is the library's own rendering of the segment (what the check appends). -/
-theorem append_pop_partial (f : Bool) (segs : List Seg) (sg : Seg) (hne : segs ≠ [])
+/-- **append_pop.**  For every well-formed list `segs ≠ []` (all kinds) written in either notation
+and every further segment `sg` such that `segs ++ [sg]` is well-formed,
+`YAMLPath(text).append(canonical text of sg)` followed by `pop()` returns that segment (in its
+unescaped form) and leaves exactly the original text.  `segText f sg` is the library's own rendering
+of the segment (what the check appends).  Hypotheses, all facts of the notation rather than defects:
+`appendable` — `append` puts a separator in front of the text, and by the documented syntax an `&`
+right after a separator IS an anchor mark, so the text `&(…)` does not denote an intersection collector
+there (collector operators are written directly behind the preceding collector); likewise `&+x`
+directly behind a collector reads `+` as a collector operator; `dotExpressible` — a dot text starting
+with `/` is a forward-slash path. -/
+theorem append_pop (f : Bool) (segs : List Seg) (sg : Seg) (hne : segs ≠ [])
     (hwf : wfSegs (segs ++ [sg]) = true) (happ : appendable (lastIsColl false segs) sg = true)
-    (hx : if f then fslashExpressible segs = true else dotExpressible segs = true) :
+    (hx : f = false → dotExpressible segs = true) :
     popView ((PathObj.new (write f segs)).append (Sim.segText f sg)) =
       .ok (keepEsc (Sim.sepOf f) sg, write f segs) := by
-  have hxf : f = true → fslashExpressible segs = true := by
-    intro h; subst h; exact hx
   have hw : wfSegs segs = true := by
     simp only [wfSegs, Sim.wfFrom_append, Bool.and_eq_true] at hwf
     exact hwf.1
-  obtain ⟨hn, hu⟩ := Sim.append_parse f segs sg hne hwf happ hxf
+  obtain ⟨hn, hu⟩ := Sim.append_parse f segs sg hne hwf happ
   have hnt := Sim.write_nonblank f segs hw
   have hwne : write f segs ≠ [] := by
     intro h0
-    have := parse_write_partial f segs hw hxf
+    have := parse_write f segs hw
     rw [h0, Sim.parseWith_nil] at this
     exact hne (Except.ok.inj this).symm
   have hhead : if f then (write f segs).head? = some '/' else (write f segs).head? ≠ some '/' := by
     cases f
-    · simpa [dotExpressible] using hx
+    · simpa [dotExpressible] using hx rfl
     · simp [write]
   obtain ⟨hs1, _⟩ := inferSep_of_head f hwne hhead
   have hhead2 : ∀ x : Str, if f then (write f segs ++ x).head? = some '/'
@@ -369,12 +321,23 @@ example : wfSegs demoAll = true ∧ parse true (write false demoAll) = .ok demoA
 example : dotExpressible [(.key, .str "/a".toList)] = false ∧
     parse true (write false [(.key, .str "/a".toList)]) = .ok [(.key, .str "a".toList)] := by
   decide +kernel
-/-- `append_pop_partial` is not vacuous: a list with every kind, lengthened by a search segment -/
+/-- `append_pop` is not vacuous: a list with every kind, lengthened by a search segment -/
 example : wfSegs (demoAll ++ [(.search, .search false .regex "a.b".toList "x y".toList)]) = true ∧
     appendable (lastIsColl false demoAll) (.search, .search false .regex "a.b".toList "x y".toList) = true ∧
-    fslashExpressible demoAll = true ∧ dotExpressible demoAll = true := by decide +kernel
-/-- the excluded append (finding C08-6, second face): the model, like /repo, reads `(a).&(b)` as two
-plain collectors and `pop()` leaves `(a).&` -/
+    dotExpressible demoAll = true := by decide +kernel
+/-- regression for finding C08-6 (repaired by /repo 5554362): an `&` collector operator behind
+leading empty collectors keeps its meaning in forward-slash notation, and a collector expression may
+start with `&` right after a separator -/
+def regress6 : List Seg :=
+  [(.collector, .collector [] .none), (.collector, .collector "b".toList .inter)]
+example : wfSegs regress6 = true ∧ write true regress6 = "/()&(b)".toList ∧
+    parseWith true true "/()&(b)".toList = .ok regress6 ∧
+    parseWith false true (write false regress6) = .ok regress6 ∧
+    parseWith true true "/(&a)".toList = .ok [(.collector, .collector "&a".toList .none)] ∧
+    parseWith false true "x.(&a)".toList =
+      .ok [(.key, .str "x".toList), (.collector, .collector "&a".toList .none)] := by decide +kernel
+/-- why `appendable` excludes `&(…)`: behind the separator that `append` inserts, `&` is an anchor
+mark by the notation, so `(a).&(b)` is two plain collectors and `pop()` leaves `(a).&` -/
 example : popView ((PathObj.new "(a)".toList).append "&(b)".toList)
     = .ok ((.collector, .collector "b".toList .none), "(a).&".toList) := by decide +kernel
 /-- append then pop on a concrete path (model): the segment comes back and the text is restored -/
